@@ -341,6 +341,14 @@ def r_forest_validators(model, rep):
     ok = bool(ps) and bool(v) and ps[0].seq < v[0].seq
     rep.ob("R-FOREST-VALIDATORS", "VariantBase.add:parent-set-before-validate", ok, site=cx.site(f.node),
            msg="" if ok else "the child's parent pointer must be set before it is validated (uid / arch alignment)")
+    # a refusal is a refusal: whatever the handler that restores the parent pointer does, it raises again
+    handlers = [ev for ev in cx.events if ev.kind == "store" and ev.target == ("attr", var, "parent") and any(g[0][0] == "exc" for g in ev.guards)]
+    if handlers:
+        rer = [ev for ev in cx.events if ev.kind == "raise" and ev.seq > handlers[-1].seq and any(g[0][0] == "exc" for g in ev.guards)
+               and not [g for g in ev.guards if g[0][0] != "exc" and g not in handlers[-1].guards]]
+        rep.ob("R-FOREST-VALIDATORS", "VariantBase.add:handler-reraises", bool(rer), site=cx.site(handlers[-1].lineno),
+               msg="" if rer else "the handler that detaches a refused variant swallows the exception: add() returns as if the variant "
+                                  "had been attached")
     # ancestor check
     anc = [ev for ev in cx.events if ev.kind == "raise" and any(
         g[1] and g[0][0] == "cmp" and g[0][1] == ("in",) and g[0][2][0] == var
